@@ -7,6 +7,7 @@ import (
 	"path/filepath"
 	"sort"
 	"strings"
+	"sync/atomic"
 
 	"go.flow.arcalot.io/pluginsdk/schema"
 
@@ -138,7 +139,7 @@ func c06Judge(c *wk.Ctx, prop string, h string, spec rig.SessionSpec, res *rig.S
 		"transport": fmt.Sprintf("c2s=%s s2c=%s", spec.C2S, spec.S2C), "chunk_seed": spec.ChunkSeed}
 	switch res.Monitor.Outcome {
 	case "inconclusive":
-		c.Inconclusive(fmt.Sprintf("history=%s schedule=%v: watchdog fired; still running: %v", h, spec.Sched, res.Monitor.Verdict.RunningDescr))
+		c.Inconclusive(fmt.Sprintf("history=%s schedule=%v: watchdog fired; still running: %v", h, spec.Sched, res.Monitor.Verdict.RunningDescr) + snapSummary(res.Monitor.Snap))
 		return false
 	case "deadlock":
 		var blocked []string
@@ -153,7 +154,7 @@ func c06Judge(c *wk.Ctx, prop string, h string, spec rig.SessionSpec, res *rig.S
 		sort.Strings(blocked)
 		var unreturned []string
 		for _, e := range res.Execs {
-			if e.Returned == 0 {
+			if atomic.LoadInt32(&e.Returned) == 0 {
 				unreturned = append(unreturned, e.Spec.RunID)
 			}
 		}
@@ -178,8 +179,8 @@ func c06Judge(c *wk.Ctx, prop string, h string, spec rig.SessionSpec, res *rig.S
 		bad = true
 	}
 	for _, e := range res.Execs {
-		if e.Returned != 1 {
-			c.Violation(prop+":execute-return-count", fmt.Sprintf("history %s: Execute(%s) returned %d times", h, e.Spec.RunID, e.Returned), wit)
+		if atomic.LoadInt32(&e.Returned) != 1 {
+			c.Violation(prop+":execute-return-count", fmt.Sprintf("history %s: Execute(%s) returned %d times", h, e.Spec.RunID, atomic.LoadInt32(&e.Returned)), wit)
 			bad = true
 		}
 	}
